@@ -716,6 +716,44 @@ theorem scanN_succ (c : Cfg) (ts : Nat → List Nat) (l0 : Loop) (N : Nat) :
     scanN c ts l0 (N + 1) = stepPos c (scanN c ts l0 N) N (ts N) := by
   unfold scanN; rw [List.range_succ, List.map_append, List.foldl_append]; rfl
 
+/-- the scan with the callback-counting ticker of the first wave, on a query in which every
+    position `0 … N-1` has a callback -/
+def scanCount (c : Cfg) (ts : Nat → List Nat) (l0 : Loop) (N : Nat) : Loop :=
+  ((List.range N).map fun p => (p, ts p)).foldl (fun l call => onKmerCount c l call.1 call.2) l0
+
+theorem scanCount_succ (c : Cfg) (ts : Nat → List Nat) (l0 : Loop) (N : Nat) :
+    scanCount c ts l0 (N + 1) = onKmerCount c (scanCount c ts l0 N) N (ts N) := by
+  unfold scanCount; rw [List.range_succ, List.map_append, List.foldl_append]; rfl
+
+/-- where every position has a callback the countdown of callbacks and the ticker that follows the
+    query position drive the tubes through the same states: the countdown is `ticker - position` -/
+theorem scanCount_eq (c : Cfg) (hoff : 1 ≤ c.off) (ts : Nat → List Nat) (l0 : Loop) (h0 : 1 ≤ l0.ticker) (N : Nat) :
+    (scanCount c ts l0 N).st = (scanN c ts l0 N).st ∧
+    (scanCount c ts l0 N).ticker + N = (scanN c ts l0 N).ticker ∧ N < (scanN c ts l0 N).ticker := by
+  induction N with
+  | zero => exact ⟨rfl, rfl, h0⟩
+  | succ N ih =>
+    obtain ⟨h1, h2, h3⟩ := ih
+    rw [scanCount_succ, scanN_succ]
+    unfold onKmerCount stepPos kmers
+    simp only []
+    rw [h1]
+    by_cases hfire : (scanCount c ts l0 N).ticker - 1 = 0
+    · rw [if_pos hfire, tick_one c hoff _ (N + 1) (by show (scanN c ts l0 N).ticker = N + 1; omega)]
+      refine ⟨?_, ?_, ?_⟩
+      · show tubeEnd c _ N = tubeEnd c _ (N + 1 - 1)
+        rw [Nat.add_sub_cancel]
+      · show c.off + (N + 1) = N + 1 + c.off
+        omega
+      · show N + 1 < N + 1 + c.off
+        omega
+    · rw [if_neg hfire, tick_done c _ (N + 1) (by show N + 1 < (scanN c ts l0 N).ticker; omega)]
+      refine ⟨rfl, ?_, ?_⟩
+      · show (scanCount c ts l0 N).ticker - 1 + (N + 1) = (scanN c ts l0 N).ticker
+        omega
+      · show N + 1 < (scanN c ts l0 N).ticker
+        omega
+
 /-- what the match needs from the scan: every shared position `p` has its target position
     `tstar p` among the target positions of the k-mer at `p`, on the match's tube, not cut -/
 structure Events (c : Cfg) (i : Nat) (sh : Nat → Bool) (tstar : Nat → Nat) (ts : Nat → List Nat) : Prop where
